@@ -199,7 +199,7 @@ class SkelTr:
                 return [f"{ind}modify fun w => {{ w with {self.spec['bool_fields'][a]} := {self.bexpr(s.value, locs)} }}"]
             if isinstance(t, ast.Name):
                 n = self.collab_call(s.value)
-                if n is not None and t.id in self.spec.get("bool_locals", ()):
+                if n is not None and t.id in self.cond_names:
                     locs.add(t.id)
                     return [f"{ind}let {t.id} ← ask \"{n}\""]
                 if n is not None:
@@ -305,6 +305,9 @@ class SkelTr:
         if len(fn.args.args) != 1:
             raise Untranslatable(f"{name}: takes arguments")
         self.called = set()
+        # locals that steer the control flow later on (used in the test of an `if` / `while`): their value is asked for
+        self.cond_names = {n.id for st in ast.walk(fn) if isinstance(st, (ast.If, ast.While))
+                           for n in ast.walk(st.test) if isinstance(n, ast.Name)}
         self.nhelp = self.nloop = 0
         k0 = "pure ()" if ret == "Unit" else "failure"
         if self.trace_calls and ret == "Unit":
@@ -358,7 +361,6 @@ CONTROL_SPEC = dict(
     props={"is_max_uptime_reached"},
     modules={"time"},
     skip={"_logger"},
-    bool_locals={"already_paused"},
     queue={"_web_api_server.has_commands": "hasCmds", "_web_api_server.receive_command": "recv"},
     enums={"ControlCommands": {"PAUSE": ".pause", "RESUME": ".resume", "SHUTDOWN": ".shutdown", "SAVE_STATE": ".save"}},
     fuel={"process_received_web_api_commands": "(← get).cmds.length + 1"},
